@@ -10,7 +10,7 @@ from vlib.runner import HarnessError, Mismatch, drive
 PROP = "C18"
 LEVEL = "exploration"
 WORKERS = {"quick": 4, "thorough": 16}
-BUDGET = {"quick": 60, "thorough": 500}
+BUDGET = {"quick": 100, "thorough": 500}
 TECHNIQUE = "Hypothesis-generated mixed-type corpora + exhaustive 2-job value pairs, against an independent flattening / type-grouping / set-algebra oracle"
 LEVEL_TEXT = (
     "Generated-input search: schema and diffs reported by signac are compared with a summary computed by the "
